@@ -135,6 +135,7 @@ func (v *Vue) Render(w io.Writer, filename string, data any) error {
 
 	// Merge front-matter data into the provided data (front-matter is authoritative)
 	dataMap := toMapData(data)
+	verifPoint(vpFMMerge, len(frontMatter), 0)
 	for k, v := range frontMatter {
 		dataMap[k] = v
 	}
@@ -146,6 +147,7 @@ func (v *Vue) Render(w io.Writer, filename string, data any) error {
 	})
 
 	// Assign unique IDs to all v-once elements for tracking across deep clones
+	verifPoint(vpVOnceAssign, len(dom), 0)
 	for _, node := range dom {
 		assignSeenAttrs(&vueCtx, node)
 	}
@@ -170,11 +172,13 @@ func (v *Vue) loadCachedWithFrontMatter(filename string) (map[string]any, []*htm
 	if ok && (currentModTime.IsZero() || cached.modTime.Equal(currentModTime)) {
 		// Cache hit and file hasn't changed (or we can't check mtime)
 		v.templateMu.RUnlock()
+		verifPoint(vpCacheHit, 0, 0)
 		return cached.frontMatter, cached.dom, nil
 	}
 	v.templateMu.RUnlock()
 
 	// Cache miss or file changed - reload
+	verifPoint(vpCacheMiss, 0, 0)
 	frontMatter, templateBytes, err := v.loader.loadFragment(filename)
 	if err != nil {
 		return nil, nil, err
@@ -185,6 +189,7 @@ func (v *Vue) loadCachedWithFrontMatter(filename string) (map[string]any, []*htm
 		return nil, nil, err
 	}
 
+	verifPoint(vpCacheStore, 0, 0)
 	v.templateMu.Lock()
 	v.templateCache[filename] = &templateCacheEntry{
 		dom:         dom,
@@ -225,6 +230,7 @@ func (v *Vue) RenderFragment(w io.Writer, filename string, data any) error {
 
 	// Merge front-matter data into the provided data (front-matter is authoritative)
 	dataMap := toMapData(data)
+	verifPoint(vpFMMerge, len(frontMatter), 0)
 	for k, v := range frontMatter {
 		dataMap[k] = v
 	}
@@ -236,6 +242,7 @@ func (v *Vue) RenderFragment(w io.Writer, filename string, data any) error {
 	})
 
 	// Assign unique IDs to all v-once elements for tracking across deep clones
+	verifPoint(vpVOnceAssign, len(dom), 0)
 	for _, node := range dom {
 		assignSeenAttrs(&vueCtx, node)
 	}
